@@ -1,5 +1,58 @@
 import GoPlugin.Oracle.C19
+/-
+C15 cases are operation sequences on the Lifecycle model.  An operation `G` ("next generation") takes
+`ReattachConfig()` of the current client, builds a new client from it (`Lifecycle.nextGen`) and
+continues on that one; the results of each generation are printed separately (`;`), indices local to
+the generation.  Lines without `G` are C19 lines.
+-/
 namespace GoPlugin.Oracle.C15
-/-- C15 cases are operation sequences on the Lifecycle model. -/
-def run (tag : String) (kv : Wire.KV) : String := Oracle.C19.run tag kv
+open GoPlugin Wire Lifecycle
+
+/-- split at "G" -/
+def gens : List String → List (List String)
+  | [] => [[]]
+  | op :: rest =>
+    match gens rest with
+    | g :: gs => if op = "G" then [] :: g :: gs else (op :: g) :: gs
+    | [] => [[op]]
+
+def runOps (P : Params) (hs real : Bool) : State → Bool → List String → State × Bool
+  | s, killed, [] => (s, killed)
+  | s, killed, op :: rest =>
+    let conn := real && hs && !killed
+    let evs : List Event := match op with
+      | "S" => [.start hs]
+      | "C" => [.client hs conn]
+      | "P" => [.protocol hs]
+      | "R" => [.reattachConfig]
+      | "I" => [.id]
+      | "E" => [.exited]
+      | "K" => [.killA hs conn, .killB]
+      | _ => []
+    let s' := evs.foldl (fun st e => (step P st e).getD st) s
+    runOps P hs real s' (killed || (op = "K" && s.runner.isSome)) rest
+
+def runGens (P : Params) (hs real : Bool) : State → Bool → List (List String) → List String
+  | _, _, [] => []
+  | s, killed, g :: rest =>
+    let (s', killed') := runOps P hs real s killed g
+    let here := C19.showOuts s'.outs
+    match rest with
+    | [] => [here]
+    | _ =>
+      match nextGen P s' with
+      | none => [here, "nil"]                       -- ReattachConfig() returned nil: no further client
+      | some s1 => here :: runGens P hs real s1 killed' rest
+
+def run (tag : String) (kv : KV) : String :=
+  let ops := commaList (kv.getD "ops" "_")
+  if !ops.contains "G" then Oracle.C19.run tag kv else
+  let P := Facts.lifecycle
+  let hs := boolOf (kv.getD "hs" "1")
+  let lk := kv.getD "launch" "reattach"
+  let (l, alive) : Launch × Bool :=
+    if lk = "reattach-test" then (.reattach true, true) else if lk = "reattach-dead" then (.reattach false, false)
+    else (.reattach false, true)
+  s!"outs={String.intercalate ";" (runGens P hs true (init l alive) false (gens ops))} launches=0 dirs=0"
+
 end GoPlugin.Oracle.C15
